@@ -26,10 +26,18 @@
      C02_keyed_view_exact   the view gives a fluent its own value whenever the fluents sharing its key share its value;
      C02_keyed_small_arity  applications of one arity <= 2 never share a key (so for functions of arity <= 2 the view IS the
                             state, and C02_applicable describes the code);
-     C02_keyed_refuted      arity 3, call (act o1 o2 o1): the code answers false on a state where the precondition is true. *)
+     C02_keyed_refuted      arity 3, call (act o1 o2 o1): the code answers false on a state where the precondition is true.
+
+   Wave 3 -- an Operator built WITHOUT an object table (problem_objects=None; NOT the empty table {} of a problem without objects,
+   over which quantifiers still range through the domain's constants):
+     C02_applicable_noobj   is_applicable .. None .. = [holds] of the precondition with every forall erased (Spec.EraseForall), for EVERY
+                            formula; nothing is assumed about the quantified bodies (they are never instantiated);
+     C02_eval_g_noobj       the same for any grounded condition; C02_erase_forall_id: on forall-free formulas erasure is the identity
+                            (so this contains C02_eval_g_none). *)
 From Coq Require Import List String Bool PrimFloat.
 From Verif Require Import Base.Result Base.Str Base.PyDict Model.Types Model.Domain Model.Exec Model.KeyedState
-  Spec.Pddl Spec.Subst Proofs.C02_Sub Proofs.C20_Defs Proofs.C20_Subst Proofs.C02_Eval Proofs.C02_Main Proofs.C02_Keyed.
+  Spec.Pddl Spec.Subst Spec.EraseForall Proofs.C02_Sub Proofs.C20_Defs Proofs.C20_Subst Proofs.C02_Eval Proofs.C02_Main
+  Proofs.C02_Keyed Proofs.C02_NoObj.
 Import ListNotations.
 
 (* the library's subtype test is the spec's, on any table (so 'forall' ranges over the quantified type and its subtypes) *)
@@ -130,6 +138,33 @@ Theorem C02_keyed_refuted :
   holds k_eps (d_types k_dom) k_objs (combine (dkeys (ma_sig k_act)) ["o1"; "o2"; "o1"]) k_state k_phi = true.
 Proof. exact keyed_refuted_lemma. Qed.
 
+(* ---------- an Operator built without an object table ---------- *)
+Theorem C02_eval_g_noobj : forall (dom : mdomain) (eps : float) (s : state) (objs : objects)
+                                  (pm : pmap) (p : mpre) (g : gpre) (phi : form),
+  ground_pre dom pm p = Ok g ->
+  denote_pre p = Some phi ->
+  no_shadow (d_consts dom) (dkeys pm) = true ->
+  eval_g dom eps None s g =
+  if fdiv0 (d_types dom) objs pm s (erase_forall phi) then Err EOther
+  else Ok (holds eps (d_types dom) objs pm s (erase_forall phi)).
+Proof. exact C02_eval_g_noobj_lemma. Qed.
+
+Theorem C02_applicable_noobj : forall (d : mdomain) (eps : float) (a : maction) (args : list string) (objs : objects)
+                                      (s : state) (phi : form) (ga : gaction),
+  denote_pre (ma_pre a) = Some phi ->
+  ground_action d a args = Ok ga ->
+  no_shadow (d_consts d) (dkeys (call_map a args)) = true ->
+  is_applicable d eps None ga s =
+  if fdiv0 (d_types d) objs (combine (dkeys (ma_sig a)) args) s (erase_forall phi) then Err EOther
+  else Ok (holds eps (d_types d) objs (combine (dkeys (ma_sig a)) args) s (erase_forall phi)).
+Proof. exact C02_applicable_noobj_lemma. Qed.
+
+Theorem C02_erase_forall_id : forall phi : form, forall_free phi = true -> erase_forall phi = phi.
+Proof. exact erase_forall_id. Qed.
+
+Theorem C02_erase_forall_free : forall phi : form, forall_free (erase_forall phi) = true.
+Proof. exact erase_forall_free. Qed.
+
 Print Assumptions C02_subtype.
 Print Assumptions C02_applicable.
 Print Assumptions C02_applicable_spec.
@@ -142,3 +177,7 @@ Print Assumptions C02_shadow_refuted.
 Print Assumptions C02_keyed_view_exact.
 Print Assumptions C02_keyed_small_arity.
 Print Assumptions C02_keyed_refuted.
+Print Assumptions C02_eval_g_noobj.
+Print Assumptions C02_applicable_noobj.
+Print Assumptions C02_erase_forall_id.
+Print Assumptions C02_erase_forall_free.
